@@ -17,7 +17,7 @@ from checks import apitrace  # noqa
 
 def awkward(rng):
     """Inputs that NumPy handles and cubed may have to decline: odd layouts for reshape / qr / scans, many blocks, size-0 dims."""
-    k = rng.choice(["scan-blocks", "reshape", "qr", "zero", "clip", "stack-mixed", "drop-axis"])
+    k = rng.choice(["scan-blocks", "reshape", "qr", "qr", "svd", "zero", "clip", "stack-mixed", "stack-mixed", "drop-axis"])
     if k == "scan-blocks":
         n = rng.choice([6, 7, 9, 11, 13, 14, 23])
         inp = dict(shape=[n * 2], chunks=[2], dtype="int64", seed=1, pattern="lin", src="asarray")
@@ -27,10 +27,11 @@ def awkward(rng):
     elif k == "reshape":
         inp = dict(shape=[6, 4], chunks=[rng.choice([1, 2, 4, 5]), rng.choice([1, 3, 4])], dtype="int64", seed=1, pattern="lin", src="asarray")
         steps = [dict(op="reshape", args=[0], kw=dict(shape=rng.choice([[4, 6], [3, 8], [2, 12], [24], [2, 3, 4], [8, 3]])))]
-    elif k == "qr":
-        r, c = rng.choice([(9, 4), (6, 4), (8, 2), (10, 3)])
-        inp = dict(shape=[r, c], chunks=[rng.choice([2, 3, 4, 5]), c], dtype="float64", seed=1, pattern="lin", src="asarray")
-        steps = [dict(op="qr", args=[0])]
+    elif k in ("qr", "svd"):
+        c = rng.choice([2, 3, 4])
+        r = rng.randint(c + 1, 14)
+        inp = dict(shape=[r, c], chunks=[rng.randint(max(1, c - 1), r), c], dtype="float64", seed=1, pattern="lin", src="asarray")
+        steps = [dict(op=k, args=[0])]
     elif k == "zero":
         inp = dict(shape=[0, 3], chunks=[1, 2], dtype="int64", seed=1, pattern="lin", src="asarray")
         steps = [dict(op=rng.choice(["sum", "negative", "flip"]), args=[0], kw=dict(axis=0) if True else {})]
@@ -41,7 +42,9 @@ def awkward(rng):
         steps = [dict(op="clip", args=[0], kw=dict(min=rng.choice([None, -2]), max=rng.choice([None, 3])))]
     elif k == "stack-mixed":
         inp = dict(shape=[6, 3], chunks=[2, 3], dtype="int64", seed=1, pattern="lin", src="asarray")
-        steps = [dict(op="rechunk", args=[0], kw=dict(chunks=[3, 1])), dict(op="stack", args=[0, 1], kw=dict(axis=rng.choice([0, 1, 2])))]
+        order = rng.choice([[0, 1], [1, 0], [1, 0, 1]])
+        steps = [dict(op="rechunk", args=[0], kw=dict(chunks=[rng.choice([1, 3, 6]), rng.choice([1, 2, 3])])),
+                 dict(op="stack", args=order, kw=dict(axis=rng.choice([0, 1, 2])))]
     else:
         inp = dict(shape=[4, 2], chunks=[rng.choice([2, 4]), 1], dtype="int64", seed=1, pattern="lin", src="asarray")
         steps = [dict(op="sum", args=[0], kw=dict(axis=0))]
